@@ -68,6 +68,10 @@ def cases(tier, seed):
                     sib_menu.append([{"i": "dirichlet", "alpha": 1.0, "axis": (ini["axis"] % r)}, {"i": "uniform", "a": 0.25, "b": 0.5}])
                 if ini["i"] in ("const", "array"):
                     sib_menu.append([{"i": "const", "v": -1.5}])
+                # siblings whose learnable flag differs from the tensor under test (same shape and dtype)
+                if not (ini["i"] == "array" and ini.get("how") == "int") and not (ini["i"] == "const" and isinstance(ini["v"], list)):
+                    sib_menu.append([{"i": "normal", "m": 0.0, "s": 1.0, "learnable": not learnable}])
+                    sib_menu.append([{"i": "const", "v": 2.5, "learnable": not learnable}, {"i": "uniform", "a": 0.25, "b": 0.5, "learnable": learnable}])
                 for sibs in sib_menu:
                     for fold in (True, False):
                         if sibs is None and fold is False and ini["i"] not in ("dirichlet", "array"):
@@ -114,7 +118,7 @@ def build(case):
     tensors, layers = [], []
     for j, d in enumerate(descs):
         init, dtype = make_init(d, shape, 100 + j)
-        learn = case["learnable"] and dtype != DataType.INTEGER
+        learn = d.get("learnable", case["learnable"]) and dtype != DataType.INTEGER
         t = P.TensorParameter(*shape, initializer=init, learnable=learn, dtype=dtype)
         p = P.Parameter.from_input(t)
         while len(p.shape) > 1:
@@ -194,7 +198,35 @@ class World:
                 problems.append((f"tensor {j} ({d}) folded={folded} (group of {tp.num_folds}): {msg}",
                                  {"kind": kind, "init": d["i"], "folded": folded}))
             self.prev[j] = a
+        try:
+            problems += self.grad_check()
+        except Exception as e:  # noqa
+            problems.append((f"backward raised {type(e).__name__}: {e}", {"kind": "grad-exception", "init": "grad", "folded": False}))
         self.outcome.append(len(problems))
+        return problems
+
+    def grad_check(self):
+        """Gradients must reach exactly the learnable tensors (also inside a fold group)."""
+        problems = []
+        if any(dtype != DataType.REAL for (_, _, _, dtype, _) in self.tensors):
+            return problems  # integer / complex constants are not evaluated through a real-valued sum layer
+        y = self.cc()
+        if not y.requires_grad:
+            if any(l for (_, _, _, _, l) in self.tensors):
+                problems.append(("output does not depend on any learnable tensor", {"kind": "requires-grad", "init": "grad", "folded": False}))
+            return problems
+        for p in self.cc.parameters():
+            p.grad = None
+        (y.real if y.is_complex() else y).sum().backward()
+        for j, (t, d, init, dtype, learn) in enumerate(self.tensors):
+            tp, idx = self.compiler.state.retrieve_compiled_parameter(t)
+            g = tp._ptensor.grad
+            if learn and g is None:
+                problems.append((f"tensor {j} ({d}) is learnable but receives no gradient (group of {tp.num_folds})",
+                                 {"kind": "requires-grad", "init": d["i"], "folded": tp.num_folds > 1}))
+            if not learn and g is not None:
+                problems.append((f"tensor {j} ({d}) is not learnable but its storage accumulates gradients (group of {tp.num_folds})",
+                                 {"kind": "requires-grad", "init": d["i"], "folded": tp.num_folds > 1}))
         return problems
 
     def apply(self, ev):
